@@ -7,6 +7,7 @@ partition can be verified), and compare with an oracle written here from the
 property's wording.  Only *reachable* cells are compared.
 """
 import itertools
+import re
 
 from ..astq import walk, kids, strip, canon, qt, dqt, where
 from ..evalx import Interp, SymVal, Unsupported
@@ -853,15 +854,38 @@ def closing_vertex_rule(db, chk, cfg, rule="ADD.closing-vertex"):
     from ..astq import if_parts
     f = db.one("AddPaths_")
     sites = []
+    parent_of = {}
+    for x in walk(f.body):
+        for c in kids(x):
+            parent_of[id(c)] = x
     for x in walk(f.body):
         if x.get("kind") == "IfStmt":
             cond, then, els = if_parts(x)
-            t = canon(then)
-            if "->prev)" in t and "=" in t and "v0" in canon(cond) and "==" in canon(cond) and els is None and "flags" not in t:
-                sites.append((x, cond, then))
+            t = canon(then).strip("()")
+            m = re.match(r"^(\w+) = \1->prev$", t)
+            if m and els is None:
+                sites.append((x, cond, then, m.group(1)))
     if len(sites) != 1:
-        raise AnalysisBroken("the closing-vertex step of AddPaths_ (`if (... == v0->pt) prev_v = prev_v->prev`) was not found uniquely (%d)" % len(sites))
-    node, cond, then = sites[0]
+        raise AnalysisBroken("the closing-vertex step of AddPaths_ (`if (...) prev_v = prev_v->prev`) was not found uniquely (%d)" % len(sites))
+    node, cond, then, last = sites[0]
+    # the vertex the ring is closed onto is named by the statement that follows: `<last>->next = <first>`
+    sib = kids(parent_of[id(node)])
+    nxt = sib[[id(c) for c in sib].index(id(node)) + 1] if id(node) in [id(c) for c in sib[:-1]] else None
+    m = re.match(r"^\(?%s->next = (\w+)\)?$" % last, canon(nxt)) if nxt is not None else None
+    if not m:
+        raise AnalysisBroken("AddPaths_: the statement closing the vertex ring (`%s->next = <first vertex>`) does not follow the closing-vertex step" % last)
+    first = m.group(1)
+    eqs = [y for y in walk(cond) if y.get("kind") == "CXXOperatorCallExpr" and canon(y).count("==")]
+    ok_operands = False
+    for y in eqs:
+        ops = sorted(canon(c) for c in kids(y)[1:])
+        if ops == sorted(["%s->pt" % last, "%s->pt" % first]):
+            ok_operands = True
+    chk.instance(rule, {"compares": [canon(y) for y in eqs], "last": last, "first": first, "cfg": cfg}, ok=ok_operands)
+    if not ok_operands:
+        chk.violation(rule, f.qual, "operands", "the closing-vertex test of AddPaths_ must compare the path's last vertex (%s->pt) with the first vertex of the "
+                      "same path (%s->pt, the one the ring is closed onto in the next statement); it compares %s" %
+                      (last, first, ", ".join(canon(y) for y in eqs) or "nothing"), where(node), cfg=cfg)
     n = 0
     for is_open in (False, True):
         for equal in (False, True):
@@ -1176,3 +1200,47 @@ def _consistent_before(fill, same, d1, d2, w1, w2, c1, c2):
     # different types: e1's wind_cnt2 is the winding of e2's type in the region where e1 lies... e1 lies on the border of the
     # middle region, whose e2-type winding is left_of(w2, d2); likewise e2's wind_cnt2 is e1's type in the middle region
     return c1 == left_of(w2, d2) and c2 == right_of(w1, d1)
+
+
+# ---------------------------------------------------------------------------
+# DoHorizontal: when may a horizontal edge ignore the end of its own segment? (C05)
+# ---------------------------------------------------------------------------
+
+def horz_open_end_rule(db, chk, cfg, rule="HORZ.open-end"):
+    """While a horizontal edge sweeps along the scanline it stops at the end of its own segment, except when it is a
+    closed-path maximum that has to reach its maxima pair.  An open path ending in a horizontal segment has no pair:
+    the end-of-segment tests must stay active for it (otherwise the open solution runs on past the subject's end)."""
+    from ..astq import if_parts
+    f = db.one("ClipperBase::DoHorizontal")
+    site = None
+    for x in walk(f.body):
+        if x.get("kind") == "IfStmt":
+            cond, then, els = if_parts(x)
+            cs = canon(cond)
+            if "vertex_max" in cs and "horz.vertex_top" in cs and any(y.get("kind") == "BreakStmt" for y in walk(then)):
+                site = (x, cond)
+                break
+    if site is None:
+        raise AnalysisBroken("the end-of-segment guard of DoHorizontal (`if (vertex_max != horz.vertex_top || ...)`) was not found")
+    node, cond = site
+    n = 0
+    for at_max in (False, True):
+        for open_end in (False, True):
+            def hook(name, argv, nd, open_end=open_end):
+                if name == "IsOpenEnd":
+                    return open_end
+                return NotImplemented
+            env = {"vertex_max": 5 if at_max else 6, "horz.vertex_top": 5}
+            try:
+                got = bool(Interp(db, env, call_hook=hook).ev(cond))
+            except Unsupported as e:
+                raise AnalysisBroken("cannot interpret DoHorizontal's end-of-segment guard: %s" % e)
+            want = (not at_max) or open_end
+            n += 1
+            chk.instance(rule, {"horz_is_the_maximum": at_max, "open_end": open_end, "end_of_segment_tests_active": got, "cfg": cfg}, ok=(got == want))
+            if got != want:
+                chk.violation(rule, f.qual, "max=%s/open_end=%s" % (at_max, open_end),
+                              "the end-of-segment tests of a horizontal edge are %s when it %s the maximum and its end %s an open end; they may "
+                              "only be skipped for a closed-path maximum heading for its maxima pair" %
+                              ("active" if got else "skipped", "is" if at_max else "is not", "is" if open_end else "is not"), where(node), cfg=cfg)
+    return n
